@@ -45,7 +45,7 @@ fn spec(prop: &str) -> CheckSpec {
             gates.push(Gate { counter: "enumerated_inert_sequences", min_quick: 10_000, min_thorough: 10_000 });
         }
         "C01" => {
-            rule = "Every public call of every history runs under catch_unwind in a build with overflow checks and debug assertions on (thorough: the same workload again in the plain release build); after every call EVERY read-only public operation is exercised (dump, text, view, lines, line(n), cursor, size, Line::cells/chars/text/chunks with four predicates incl. adversarial ones, Debug, Cell::width) and the history is replayed through util::TextCollector (feed_str/resize/flush). A worker process that dies (abort, stack overflow) or stops returning is re-run unit by unit in fresh processes; only a reproducible death or non-return is a violation. Work-proportionality: a call whose thread CPU time exceeds 0.25 s is compared with 200x the calibrated cost of the work it requests (characters, REP counts, screen area, retained lines); a breach confirmed by the minimum of three isolated re-runs and > 0.5 s is a violation. Workload: G1 streams with 6% parameters > 65535, > 32 parameters, > 6 sub-parameters, count-65535 commands, 1-64 KiB scalar soup (G6), 14% resizes between arbitrary sizes, sizes 1x1..40x12 (thorough ..512x128, 4096x1, 1x4096), limits unlimited/0/1/2/9/10/11/25/100/1000/100000, Changes consumed/partially consumed/dropped; plus ALL sequences of 3 calls over a 54-atom alphabet. distinct_nontrivial = distinct (call kind, limit class, cols class, rows class, parser state at call start, parameters beyond the promised range?).";
+            rule = "Every public call of every history runs under catch_unwind in a build with overflow checks and debug assertions on (thorough: the same workload again in the plain release build); after every call EVERY read-only public operation is exercised (dump, text, view, lines, line(n), cursor, size, Line::cells/chars/text/chunks with four predicates incl. adversarial ones, Debug, Cell::width) and the history is replayed through util::TextCollector (feed_str/resize/flush). A worker process that dies (abort, stack overflow) or stops returning is re-run unit by unit in fresh processes; only a reproducible death or non-return is a violation. Work-proportionality: a call whose thread CPU time exceeds 0.25 s is compared with 200x the calibrated cost of the work it requests (characters, REP counts, screen area, retained lines); a breach confirmed by the minimum of three isolated re-runs and > 0.5 s is a violation. Workload: G1 streams with 6% parameters > 65535, > 32 parameters, > 6 sub-parameters, count-65535 commands, 1-64 KiB scalar soup (G6), 14% resizes between arbitrary sizes, sizes 1x1..40x12 (thorough ..512x128, 4096x1, 1x4096), limits unlimited/0/1/2/9/10/11/25/100/1000/100000, Changes consumed/partially consumed/dropped; one unit in 5000 is a deep re-wrap (one logical line of 60,000-300,000 characters wrapped on a 1-3 column screen, then resized in one call to a width of 10^4-10^5 and back to a third of it); plus ALL sequences of 3 calls over a 54-atom alphabet. distinct_nontrivial = distinct (call kind, limit class, cols class, rows class, parser state at call start, parameters beyond the promised range?).";
             gates.push(Gate { counter: "calls", min_quick: 200_000, min_thorough: 2_000_000 });
         }
         "C02" => {
